@@ -2,6 +2,8 @@
 package dcp
 
 import (
+	"github.com/asaskevich/EventBus"
+
 	"github.com/Trendyol/go-dcp/config"
 	"github.com/Trendyol/go-dcp/stream"
 )
@@ -14,3 +16,6 @@ func VerifNewDcpConfig(path string) (config.Dcp, error) { return newDcpConfig(pa
 
 // VerifDiscovery exposes the vBucket discovery of a started client.
 func VerifDiscovery(d Dcp) stream.VBucketDiscovery { return d.(*dcp).vBucketDiscovery }
+
+// VerifBus exposes the event bus of a client.
+func VerifBus(d Dcp) EventBus.Bus { return d.(*dcp).bus }
